@@ -115,6 +115,29 @@ def apply_daemon_cache_limits(settings, variant='base'):
   return daemonconf.apply_cache_limits(settings, variant)
 
 
+def wire_writer_processor(settings):
+  """The cache daemon's own wiring: the real service.setupWriterProcessor() with the TCP services stubbed out (they need a
+  real reactor).  Whatever handlers it registers (flow control, counters) are then in place as in the daemon."""
+  from carbon import service
+  from twisted.application.service import MultiService
+  import carbon.writer          # noqa - so that WriterService exists
+  root = MultiService()
+  saved = service.TCPServer
+
+  class NoTCP(object):
+    def __init__(self, *a, **k):
+      pass
+
+    def setServiceParent(self, parent):
+      pass
+  service.TCPServer = NoTCP
+  try:
+    service.setupWriterProcessor(root, settings)
+  finally:
+    service.TCPServer = saved
+  return root
+
+
 class LogCapture(object):
   """Twisted log observer: counts error events, keeps messages (never writes anything)."""
 
